@@ -26,7 +26,7 @@ package main
 //@   loop 1 invariant#count len(ids) == keycount(id(scanner), n)                                                    [C18]
 //@   loop 1 invariant#nonnil forall j in 0..len(ids) :: ids[j] != nil                                              [C18]
 //@   call parseIdentity#0 requires arg0 == scanner.$cur && iskeyline(arg0)                                          [C18]
-//@   call fmt.Errorf#1 requires arg0 == "error at line %d: %v" && unboxint(arg1[0]) == n && n == scanner.$ln        [C18]
+//@   call fmt.Errorf#1 requires len(arg1) == 2 && unboxint(arg1[0]) == n && n == scanner.$ln        [C18]
 //@   ensures#all err == nil ==> len(ids) == keycount(id(scanner), scanner.$ln) && len(ids) >= 1 && (forall j in 0..len(ids) :: ids[j] != nil)   [C18]
 //@   ensures#nonnil err == nil ==> len(ids) >= 1 && (forall j in 0..len(ids) :: ids[j] != nil)                     [C14 C18]
 //@   ensures#nil err != nil ==> ids == nil                                                                         [C14 C18]
@@ -39,8 +39,8 @@ package main
 //@   loop 1 invariant#freshrecs rg(recs) == 0 || fresh(recs)
 //@   call parseRecipient#0 requires arg0 == scanner.$cur && iskeyline(arg0)                                         [C18]
 //@   call warningf#1 requires (lastret("sshKeyType",1,0) != "ssh-rsa" && lastret("sshKeyType",1,0) != "ssh-ed25519") || lastret("ParseAuthorizedKey",1,4) == nil   [C18]
-//@   call fmt.Errorf#4 requires arg0 == "%q: malformed recipient at line %d" && len(arg1) == 2 && unboxstr(arg1[0]) == name && unboxint(arg1[1]) == n && n == scanner.$ln   [C18]
-//@   call fmt.Errorf#3 requires arg0 == "%q: line %d is too long" && len(arg1) == 2 && unboxstr(arg1[0]) == name && unboxint(arg1[1]) == n   [C18]
+//@   call fmt.Errorf#4 requires len(arg1) == 2 && unboxstr(arg1[0]) == name && unboxint(arg1[1]) == n && n == scanner.$ln   [C18]
+//@   call fmt.Errorf#3 requires len(arg1) == 2 && unboxstr(arg1[0]) == name && unboxint(arg1[1]) == n   [C18]
 //@   ensures#all err == nil ==> len(recs) + ($warnings - old($warnings)) == keycount(id(scanner), scanner.$ln) && len(recs) >= 1   [C18]
 //@   ensures#nonnil err == nil ==> (forall j in 0..len(recs) :: recs[j] != nil)                                    [C14 C18]
 //@   ensures#nil err != nil ==> recs == nil                                                                        [C14 C18]
